@@ -631,13 +631,19 @@ func checkDistance(k *K, m *G, r *vrt.Rand, reps []Rep) {
 			f    func(graph.Graph, path.AllShortest) map[int64]float64
 			want []float64
 		}
-		for _, ms := range []meas{
+		// the same AllShortest value serves all measures, in a drawn order; the
+		// first measure is asked once more after the others (answers must not
+		// depend on what was computed from p before)
+		list := []meas{
 			{"Closeness", network.Closeness, clo},
 			{"Farness", network.Farness, far},
 			{"Harmonic", network.Harmonic, har},
 			{"Residual", network.Residual, res},
 			{"Eccentricity", network.Eccentricity, ecc},
-		} {
+		}
+		r.Shuffle(len(list), func(a, b int) { list[a], list[b] = list[b], list[a] })
+		list = append(list, list[0])
+		for _, ms := range list {
 			var got map[int64]float64
 			if !kk.try(ms.name, sig, func() { got = ms.f(g, p) }) {
 				continue
